@@ -19,8 +19,12 @@ ASSUMPTIONS = ["explicit_bzero (libc) zeroes the bytes it is given: sodium_memze
 
 def configs(tier):
     if tier == "quick":
-        return [("native", "", "plain"), ("portable", "", "plain")]
-    return [(v, "", "plain") for v in vcore.VARIANTS] + [("native", vcore.ALL_OFF, "plain"), ("native", "", "asan")]
+        # "for all buffers": the operand ADDRESS is part of the quantifier (word-at-a-time or vector rewrites behave differently on
+        # misaligned pointers), so the whole op set is also run with every buffer placed 1 / 4 / 7 bytes past a malloc boundary
+        return [("native", "", "plain"), ("portable", "", "plain")] + [("native", "", "plain", {"HX_ALIGN": str(k)}) for k in (1, 4, 7)] + \
+               [("portable", "", "plain", {"HX_ALIGN": "3"})]
+    return [(v, "", "plain") for v in vcore.VARIANTS] + [("native", vcore.ALL_OFF, "plain"), ("native", "", "asan")] + \
+           [(v, "", "plain", {"HX_ALIGN": str(k)}) for v in ("native", "portable") for k in range(1, 16)] + [("native", "", "asan", {"HX_ALIGN": "5"})]
 
 
 def rb(rng, n):
